@@ -280,6 +280,7 @@ def run(prog, chk):
     copy_destination_flags(prog, chk, "C19.i")
     stale_path_summaries(prog, chk, "C19.j")
     stem_extension_cut(prog, chk, "C19.k")
+    read_all_table(prog, chk, "C19.l")
 
 
 def copy_destination_flags(prog, chk, rid):
@@ -680,3 +681,61 @@ def stem_extension_cut(prog, chk, rid):
                 "stem and extension no longer add up to the base name" % (odd.name, extra[0][:60]), evals=2)
     else:
         chk.ok(rid, st[0], "getStem and getExtension both cut at the dot met first, unconditionally", "%s:%s" % (st[0].file, st[0].line), "scan classification: %s / %s" % (ks, ke), evals=2)
+
+
+def read_all_table(prog, chk, rid):
+    """File::readAll as a decision table over (size(), what read() returns): it fails exactly when size() or read() failed; otherwise
+    it succeeds and the text is cut to the number of bytes read - zero bytes (position at or behind the end, empty file) included."""
+    chk.rule(rid, "FIN: File::readAll(String&) evaluated over size() in {-1, 0, 10} x read() in {-1, 0, 4, 10}: false exactly when one of "
+                  "the two is negative, otherwise true with the text resized to the byte count read", floor=1)
+    fs = [f for f in prog.functions.values() if f.name == "File::readAll" and f.blocks and len(f.params) == 1]
+    if not fs:
+        raise AnalysisBroken("File::readAll(String&) not found")
+    f = fs[0]
+    where = "%s:%s" % (f.file, f.line)
+    sz = [c for c in q.calls(f) if (f.nodes[c].get("callee") or "") == "File::size"]
+    rd = [c for c in q.calls(f) if (f.nodes[c].get("callee") or "") == "File::read"]
+    rs = [c for c in q.calls(f) if (f.nodes[c].get("callee") or "") == "String::resize"]
+    if not sz or not rd:
+        raise AnalysisBroken("File::readAll: calls of size() / read() not found")
+    bad = None
+    n_ev = 0
+    for S in (-1, 0, 10):
+        for R in (-1, 0, 4, 10):
+            if S < 0 and R != -1:
+                continue
+            if R > max(S, 0):
+                continue
+            val = {fin.key(f, c): S for c in sz}
+            val.update({fin.key(f, c): R for c in rd})
+            last = {}
+
+            def trace(e, v_, _l=last):
+                if e in rs:
+                    _l["n"] = fin.eval_expr(f, q.call_args(f, e)[0], v_)
+                if f.nodes[e]["k"] == "CXXMemberCallExpr" and (f.nodes[e].get("callee") or "") == "String::clear":
+                    _l["n"] = 0
+            seen, end, fv = fin.walk_vals(f, f.entry, val, limit=200, trace=trace)
+            n_ev += 1
+            if isinstance(end, str):
+                bad = (S, R, "the outcome depends on something else (%s)" % end)
+                break
+            ret = fin.eval_expr(f, f.nodes[end]["c"][0], fv) if f.nodes[end]["c"] else None
+            want = not (S < 0 or (any(c in seen for c in rd) and R < 0))
+            if S >= 0 and not any(c in seen for c in rd) and S > 0:
+                bad = (S, R, "read() is not called")
+                break
+            if bool(ret) != want:
+                bad = (S, R, "it returns %s, required %s" % (bool(ret), want))
+                break
+            if want and any(c in seen for c in rd) and last.get("n") != R:
+                bad = (S, R, "the text is left with %s byte(s), %d were read" % (last.get("n"), R))
+                break
+        if bad:
+            break
+    if bad:
+        chk.bad(rid, f, "read-all-table", where,
+                "File::readAll with size() = %d and read() = %d: %s - at the end of a file (after read(), write() or a seek to the end) "
+                "there is nothing left to read, which is not an error" % bad, evals=n_ev)
+    else:
+        chk.ok(rid, f, "readAll fails exactly when size() or read() fails, text cut to the bytes read", where, "%d outcome pairs evaluated" % n_ev, evals=n_ev)
